@@ -274,14 +274,17 @@ for cert in UPCERT:
 conns, rules, cells = [], [], []
 cecho = {}
 for k in ('http', 'socks', 'quic'):
+  for server in ('localhost', '127.0.0.1'):
+    # the upstream is named by host name, or by address literal (then there is no name to match: verification can
+    # only refuse)
     for insecure in (False, True):
         for cert in UPCERT:
-            name = f'{k}-{"insecure" if insecure else "verify"}-{cert}'
+            name = f'{k}-{"insecure" if insecure else "verify"}-{cert}-{"byname" if server == "localhost" else "byaddr"}'
             t = {'ca': f'{CERTS}/ca.crt', 'insecure': insecure}
             if k == 'quic':
-                conns.append({'name': name, 'type': 'quic', 'server': 'localhost', 'port': qback[cert][1], 'bind': '127.0.0.1:0', 'tls': t})
+                conns.append({'name': name, 'type': 'quic', 'server': server, 'port': qback[cert][1], 'bind': '127.0.0.1:0', 'tls': t})
             else:
-                conns.append({'name': name, 'type': k, 'server': 'localhost', 'port': tls_up[(k, cert)].port, 'tls': t})
+                conns.append({'name': name, 'type': k, 'server': server, 'port': tls_up[(k, cert)].port, 'tls': t})
             o = Origin('echo')
             cecho[name] = o
             rules.append({'filter': f'request.target.port == {o.port}', 'target': name})
@@ -310,9 +313,11 @@ for cell, ok in zip(cells, run_parallel(cells, through, workers=6)):
         machinery(f'{cell}: {ok}')
     distinct.add(('tls-connector', k, insecure, cert, ok))
     replay = {'connector': k, 'insecure': insecure, 'upstream_certificate': cert, 'tunnel_established': ok}
+    byaddr = name.endswith('byaddr')
+    replay['upstream_named_by'] = 'address literal' if byaddr else 'host name'
     if not insecure and cert != 'valid' and ok:
-        chk.violation('tls.connector', f'tunnel-through-unverified-upstream:{k}/{cert}', f'{k} connector without insecure: a tunnel was established through an upstream presenting a {cert} certificate', replay)
-    if not ok and (insecure or cert == 'valid'):
+        chk.violation('tls.connector', f'tunnel-through-unverified-upstream:{k}/{cert}' + ('/by-address' if byaddr else ''), f'{k} connector without insecure ({replay["upstream_named_by"]}): a tunnel was established through an upstream presenting a {cert} certificate', replay)
+    if not ok and (insecure or (cert == 'valid' and not byaddr)):
         chk.violation('tls.connector', f'legitimate-upstream-refused:{k}/{"insecure" if insecure else "verify"}/{cert}', f'{k} connector insecure={insecure}, upstream certificate {cert}: no tunnel', replay)
 samples.append({'connector': 'socks', 'insecure': False, 'upstream_certificate': 'wrongname', 'expect': 'no tunnel'})
 if not pC.alive():
@@ -326,6 +331,6 @@ for o in list(tls_up.values()) + list(cecho.values()) + [echo]:
 if evals < 500 or len(distinct) < 20:
     machinery(f'vacuous: evals={evals} distinct={len(distinct)}')
 cov = {'evaluations': evals, 'distinct_nontrivial': len(distinct), 'transitions': evals, 'traces_validated_against_impl': evals,
-       'rule': 'real binary: (1) 4 listener auth configurations x all method-offer lists of length 0-3 over {0,1,2,0x80,0xff} (quick: length-3 lists with distinct methods) x 9 credential pairs + SOCKS4 ids; (2) listener {http,socks,quic} x client certificate policy {absent,optional,required} x presented {none,valid,foreign}; (3) connector {http,socks,quic} x insecure x upstream certificate {valid,foreign,wrongname}; routed = success reply and echo round trip',
+       'rule': 'real binary: (1) 4 listener auth configurations x all method-offer lists of length 0-3 over {0,1,2,0x80,0xff} (quick: length-3 lists with distinct methods) x 9 credential pairs + SOCKS4 ids; (2) listener {http,socks,quic} x client certificate policy {absent,optional,required} x presented {none,valid,foreign}; (3) connector {http,socks,quic} x upstream named by host name / address literal x insecure x upstream certificate {valid,foreign,wrongname}; routed = success reply and echo round trip',
        'socks_sessions': len(cases), 'tls_listener_cells': len(tls_cases), 'tls_connector_cells': len(cells), 'schedule_control': 'kernel', 'samples': samples}
 sys.exit(chk.finish('model_checking', cov, ['E4 part: certificates minted by bin/mkcerts with openssl; the QUIC listener is reached through a front redproxy hop acting as QUIC client']))
